@@ -14,10 +14,13 @@ import (
 	"sort"
 	"strings"
 
+	"github.com/go-openapi/errors"
 	"github.com/go-openapi/loads"
 	"github.com/go-openapi/runtime"
 	"github.com/go-openapi/runtime/middleware"
 	"github.com/go-openapi/runtime/middleware/untyped"
+	"github.com/go-openapi/spec"
+	"github.com/go-openapi/strfmt"
 
 	"verif/engine/apib"
 )
@@ -111,14 +114,54 @@ var bodyParamDecl = map[string]any{"name": "body", "in": "body", "required": fal
 // cfg supplies the API default, the registered consumers and whether the binder decodes a body.
 func newInstance(cfg Config, doc *loads.Document, ops []opRef) *env {
 	e := &env{cfg: cfg}
+	builder := func(next http.Handler) http.Handler {
+		return http.HandlerFunc(func(w http.ResponseWriter, r *http.Request) {
+			if mr := middleware.MatchedRouteFrom(r); mr != nil {
+				e.uRoute = mr
+				e.applyOrder(mr)
+			}
+			next.ServeHTTP(w, r)
+		})
+	}
+	if cfg.Serve == "routable" || cfg.Serve == "routable-router" {
+		// the wiring of a generated server: its own RoutableAPI handed to NewRoutableContext
+		g := &genAPI{e: e, consumers: map[string]runtime.Consumer{}, def: cfg.Default}
+		for _, k := range registeredKeys(cfg) {
+			g.consumers[k] = &recCons{id: k, e: e}
+		}
+		var router middleware.Router
+		if cfg.Serve == "routable-router" {
+			router = middleware.DefaultRouter(doc, g)
+		}
+		e.ctx = middleware.NewRoutableContext(doc, g, router)
+		e.h = e.ctx.RoutesHandler(builder)
+		return e
+	}
 	api := untyped.NewAPI(doc)
-	// the built-in JSON consumer is replaced by an instrumented one (or removed)
-	api.WithoutJSONDefaults()
-	api.DefaultConsumes = cfg.Default
-	api.DefaultProduces = runtime.JSONMime
+	upper := false
+	switch cfg.API {
+	case "", "hand", "upper":
+		// the built-in JSON consumer is removed, the defaults are assigned through the exported fields
+		api.WithoutJSONDefaults()
+		api.DefaultConsumes = cfg.Default
+		api.DefaultProduces = runtime.JSONMime
+		upper = cfg.API == "upper"
+	case "newapi":
+		// as constructed: JSON defaults (model: default application/json)
+	case "without":
+		api.WithoutJSONDefaults() // model: no default media type
+	case "with":
+		api.WithoutJSONDefaults().WithJSONDefaults() // model: default application/json
+	default:
+		panic("unknown api variant " + cfg.API)
+	}
 	api.RegisterProducer(runtime.JSONMime, runtime.JSONProducer())
 	for _, k := range registeredKeys(cfg) {
-		api.RegisterConsumer(k, &recCons{id: k, e: e})
+		key := k
+		if upper {
+			key = strings.ToUpper(k) // media types are case-insensitive: RegisterConsumer owns the spelling
+		}
+		api.RegisterConsumer(key, &recCons{id: k, e: e})
 	}
 	for _, o := range ops {
 		api.RegisterOperation(o.method, o.path, runtime.OperationHandlerFunc(func(_ interface{}) (interface{}, error) {
@@ -127,16 +170,105 @@ func newInstance(cfg Config, doc *loads.Document, ops []opRef) *env {
 		}))
 	}
 	e.ctx = middleware.NewContext(doc, api, nil)
-	e.h = e.ctx.RoutesHandler(func(next http.Handler) http.Handler {
-		return http.HandlerFunc(func(w http.ResponseWriter, r *http.Request) {
-			if mr := middleware.MatchedRouteFrom(r); mr != nil {
-				e.uRoute = mr
-				e.applyOrder(mr)
-			}
-			next.ServeHTTP(w, r)
-		})
-	})
+	switch cfg.Serve {
+	case "", "routes", "direct":
+		e.h = e.ctx.RoutesHandler(builder)
+	case "apihandler":
+		e.h = e.ctx.APIHandler(builder)
+	case "swaggerui":
+		e.h = e.ctx.APIHandlerSwaggerUI(builder)
+	case "rapidoc":
+		e.h = e.ctx.APIHandlerRapiDoc(builder)
+	case "serve":
+		// Serve/ServeWithBuilder create their own Context; the typed entry point uses a second Context over the same API
+		e.h = middleware.ServeWithBuilder(doc, api, builder)
+		e.ctx.RoutesHandler(nil)
+	default:
+		panic("unknown serve variant " + cfg.Serve)
+	}
 	return e
+}
+
+// genAPI is a minimal generated-server style RoutableAPI: per-operation handlers that call
+// RouteInfo -> BindValidRequest(binder) -> Respond, its own consumer table and default media type.
+type genAPI struct {
+	e         *env
+	consumers map[string]runtime.Consumer
+	def       string
+}
+
+func (g *genAPI) HandlerFor(_, _ string) (http.Handler, bool) {
+	return http.HandlerFunc(func(w http.ResponseWriter, r *http.Request) {
+		ctx := g.e.ctx
+		route, rCtx, _ := ctx.RouteInfo(r)
+		if rCtx != nil {
+			r = rCtx
+		}
+		if err := ctx.BindValidRequest(r, route, g.e); err != nil {
+			ctx.Respond(w, r, route.Produces, route, err)
+			return
+		}
+		g.e.handler++
+		ctx.Respond(w, r, route.Produces, route, "ok")
+	}), true
+}
+func (g *genAPI) ServeErrorFor(string) func(http.ResponseWriter, *http.Request, error) {
+	return errors.ServeError
+}
+func (g *genAPI) ConsumersFor(mts []string) map[string]runtime.Consumer {
+	out := map[string]runtime.Consumer{}
+	for _, mt := range mts {
+		if c, ok := g.consumers[mt]; ok {
+			out[mt] = c
+		}
+	}
+	return out
+}
+func (g *genAPI) ProducersFor(mts []string) map[string]runtime.Producer {
+	out := map[string]runtime.Producer{}
+	for _, mt := range mts {
+		if mt == runtime.JSONMime {
+			out[mt] = runtime.JSONProducer()
+		}
+	}
+	return out
+}
+func (g *genAPI) AuthenticatorsFor(map[string]spec.SecurityScheme) map[string]runtime.Authenticator {
+	return nil
+}
+func (g *genAPI) Authorizer() runtime.Authorizer { return nil }
+func (g *genAPI) Formats() strfmt.Registry      { return strfmt.Default }
+func (g *genAPI) DefaultProduces() string       { return runtime.JSONMime }
+func (g *genAPI) DefaultConsumes() string       { return g.def }
+
+// runDirect calls the reflective entry point itself: RouteInfo -> BindAndValidate, no handler chain.
+func (e *env) runDirect(req *http.Request) (o obs) {
+	o.Entry = "untyped"
+	e.consumed, e.handler, e.uRoute = nil, 0, nil
+	defer func() {
+		if p := recover(); p != nil {
+			o.Panic = fmt.Sprint(p)
+		}
+	}()
+	route, rCtx, ok := e.ctx.RouteInfo(req)
+	if !ok {
+		o.Status = 404
+		return o
+	}
+	e.applyOrder(route)
+	_, rCtx, err := e.ctx.BindAndValidate(rCtx, route)
+	o.Consumed = e.consumed
+	o.Pick = consumerID(route.Consumer)
+	if err == nil {
+		o.Handler = 1
+		o.Status = 200
+		return o
+	}
+	rec := httptest.NewRecorder()
+	e.ctx.Respond(rec, rCtx, route.Produces, route, err)
+	o.Status = rec.Code
+	o.Msg = errMsg(rec)
+	return o
 }
 
 // applyOrder owns the order of route.Consumes: the analyzer builds the list by
@@ -283,7 +415,12 @@ func (e *env) runTyped(req *http.Request) (o obs) {
 // execute runs one case on both entry points.
 func (e *env) execute(c Case, raw string) (obs, obs) {
 	e.order = c.Order
-	u := e.runUntyped(buildRequest(c.Method, singlePath, c.Header, c.Body, raw))
+	var u obs
+	if e.cfg.Serve == "direct" {
+		u = e.runDirect(buildRequest(c.Method, singlePath, c.Header, c.Body, raw))
+	} else {
+		u = e.runUntyped(buildRequest(c.Method, singlePath, c.Header, c.Body, raw))
+	}
 	t := e.runTyped(buildRequest(c.Method, singlePath, c.Header, c.Body, raw))
 	return u, t
 }
